@@ -78,6 +78,11 @@ def probe (shape : String) (n : Nat) : NBytes :=
     if shape == "paren" then rep "(" ++ all ++ rep ")"
     else if shape == "not" then rep "NOT " ++ all
     else if shape == "or" then rep "OR " ++ all ++ rep " ALL"
+    else if shape == "notlistnot" then rep "NOT " ++ Framing.strBytes "(" ++ rep "NOT " ++ all ++ Framing.strBytes ")"
+    else if shape == "orlistor" then rep "OR ALL " ++ Framing.strBytes "(" ++ rep "OR ALL " ++ all ++ Framing.strBytes ")"
+    else if shape == "notlists" then
+      let unit := rep "NOT " ++ Framing.strBytes "("
+      unit ++ unit ++ unit ++ rep "NOT " ++ all ++ Framing.strBytes ")))"
     else rep "NOT (" ++ all ++ rep ")"
   Framing.strBytes "s SELECT m\r\n" ++ Framing.strBytes "d SEARCH " ++ body ++ [13, 10]
 
